@@ -1,0 +1,71 @@
+//go:build verif
+
+// Exported entry points used only by the verification harness (/verif). Built only with
+// -tags verif; nothing here changes the behaviour of the package.
+
+package gldap
+
+import (
+	"bufio"
+	"bytes"
+	"sync"
+
+	ber "github.com/go-asn1-ber/asn1-ber"
+	"github.com/hashicorp/go-hclog"
+)
+
+// VerifConn is an in-memory connection: requests are read from a byte slice through the
+// connection's own readRequest path and responses are written to Out.
+type VerifConn struct {
+	c   *conn
+	Out *bytes.Buffer
+}
+
+// NewVerifConn builds a conn over in (no socket, no goroutines).
+func NewVerifConn(connID int, in []byte, router *Mux) *VerifConn {
+	out := &bytes.Buffer{}
+	c := &conn{
+		connID: connID,
+		logger: hclog.NewNullLogger(),
+		router: router,
+		reader: bufio.NewReader(bytes.NewReader(in)),
+		writer: bufio.NewWriter(out),
+	}
+	return &VerifConn{c: c, Out: out}
+}
+
+// ReadRequest is conn.readRequest: ber.ReadPacket, basicValidation, newRequest.
+func (v *VerifConn) ReadRequest(requestID int) (*Request, error) {
+	return v.c.readRequest(requestID)
+}
+
+// Writer is the ResponseWriter serveRequests would create for requestID.
+func (v *VerifConn) Writer(requestID int) (*ResponseWriter, error) {
+	return newResponseWriter(v.c.writer, &v.c.writerMu, v.c.logger, v.c.connID, requestID)
+}
+
+// Serve is (*Mux).serve.
+func (v *VerifConn) Serve(w *ResponseWriter, r *Request) { v.c.router.serve(w, r) }
+
+// VerifMessage returns the decoded message of the request.
+func (r *Request) VerifMessage() Message { return r.message }
+
+// VerifRouteOp returns the route operation newRequest classified the request as.
+func (r *Request) VerifRouteOp() string { return string(r.routeOp) }
+
+// VerifExtendedName returns the extended operation name newRequest recorded.
+func (r *Request) VerifExtendedName() string { return string(r.extendedName) }
+
+// VerifDecodeControl is decodeControl.
+func VerifDecodeControl(p *ber.Packet) (Control, error) { return decodeControl(p) }
+
+// VerifResponseBytes is the wire form ResponseWriter.Write sends for r.
+func VerifResponseBytes(r Response) []byte { return r.packet().Bytes() }
+
+// VerifNewResponseWriter is newResponseWriter with a null logger.
+func VerifNewResponseWriter(w *bufio.Writer, lock *sync.Mutex, connID, requestID int) (*ResponseWriter, error) {
+	return newResponseWriter(w, lock, hclog.NewNullLogger(), connID, requestID)
+}
+
+// VerifUnbindRoute reports whether an unbind route is registered.
+func (m *Mux) VerifHasUnbindRoute() bool { return m.unbindRoute != nil }
